@@ -665,7 +665,13 @@ async fn session(rep: &Report, l: &mut Local, sh: &mut Shard, keys: &Keys, p: &P
         };
         if !justified {
             rep.violation(
-                &format!("C03:authenticated-without-proof:{}:{class}", mech_name(mech)),
+                &format!("C03:authenticated-without-proof:{}:{}", mech_name(mech), match mech {
+                    // the deciding client input: the header for the key-material path, the
+                    // ClientAuth frame (answer, or the pre-sent one) for the challenge path
+                    Mechanism::SignedKeyMaterial => format!("header={}", HEADERS[p.header]),
+                    _ if PRES[p.pre].starts_with("presend") => format!("answer={}+{}", ANSWERS[p.answer], PRES[p.pre]),
+                    _ => format!("answer={}", ANSWERS[p.answer]),
+                }),
                 format!("serverside returned Ok(client_key={}, {mech:?}) but no signature by that key over this session's {} exists", key.fmt_short(),
                     if mech == Mechanism::SignedChallenge { "challenge" } else { "keying material" }),
                 replay.clone(),
